@@ -158,6 +158,33 @@ func init() {
 		c.minNext = e.ctx.Add(c.last, args[0].(*smt.Term))
 		return nil
 	}
+	zzapi["zzSetHidden"] = func(e *Engine, args []Value, fn *ssa.Function) Value {
+		p, ok := args[0].(Iface).V.(Ptr)
+		i, _ := concInt(args[1].(*smt.Term))
+		if !ok || p.Obj == nil {
+			e.unsupported("zzSetHidden on a non-pointer")
+		}
+		sub := e.sub(p.Obj, i)
+		if _, isIface := sub.T.Underlying().(*types.Interface); isIface {
+			e.store(sub, args[2])
+		} else {
+			e.store(sub, args[2].(Iface).V)
+		}
+		return nil
+	}
+	zzapi["zzGetHidden"] = func(e *Engine, args []Value, fn *ssa.Function) Value {
+		p, ok := args[0].(Iface).V.(Ptr)
+		i, _ := concInt(args[1].(*smt.Term))
+		if !ok || p.Obj == nil {
+			e.unsupported("zzGetHidden on a non-pointer")
+		}
+		sub := e.sub(p.Obj, i)
+		v := e.load(sub)
+		if iv, isIface := v.(Iface); isIface {
+			return iv
+		}
+		return Iface{T: sub.T, V: v}
+	}
 	// zzAssignByTag(v interface{}, tag string, kv map[string]interface{}) string
 	zzapi["zzAssignByTag"] = func(e *Engine, args []Value, fn *ssa.Function) Value {
 		iv := args[0].(Iface)
